@@ -844,6 +844,11 @@ pub fn replay(part: &str, case: &Value) -> Option<CaseResult> {
         "classes" | "build" => Some(check_build(&serde_json::from_value(case.clone()).ok()?)),
         "foreign" => Some(check_ref(&serde_json::from_value(case.clone()).ok()?)),
         "header" => Some(check_hdr(&serde_json::from_value(case.clone()).ok()?)),
+        // a libFuzzer artifact: the datagram as hex
+        "fuzz-bytes" => {
+            let d = crate::engine::unhex(case.get("hex")?.as_str()?)?;
+            Some(run_bytes(&d).map(|_| CaseInfo::new()))
+        }
         _ => None,
     }
 }
